@@ -621,6 +621,18 @@ def normalize_inbound_headers(headers, hdr_validation_flags):
     return headers
 
 
+def _reject_empty_header_names(headers, hdr_validation_flags):
+    """
+    Raises a ProtocolError if a header field has an empty name (for example
+    a name that consisted of whitespace only before it was normalized): the
+    peer would have to treat the whole block as malformed.
+    """
+    for header in headers:
+        if len(header[0]) == 0:
+            raise ProtocolError("Cannot send a header with an empty name.")
+        yield header
+
+
 def validate_outbound_headers(headers, hdr_validation_flags):
     """
     Validates and normalizes a header sequence that we are about to send.
@@ -628,6 +640,9 @@ def validate_outbound_headers(headers, hdr_validation_flags):
     :param headers: The HTTP header set.
     :param hdr_validation_flags: An instance of HeaderValidationFlags.
     """
+    headers = _reject_empty_header_names(
+        headers, hdr_validation_flags
+    )
     headers = _reject_te(
         headers, hdr_validation_flags
     )
